@@ -92,7 +92,9 @@ class AbstractTypeResolver:
                 if id_func(obj):
                     enum_type = data_type
                     break
-            if obj_type not in self.cache_blocklist:
+            # Subclasses of blocklisted types must not be cached either: like
+            # their parents, their instances may fall into different groups.
+            if not issubclass(obj_type, tuple(self.cache_blocklist)):
                 self.type_map[obj_type] = enum_type
 
         return enum_type
